@@ -8,8 +8,34 @@ import os
 from harness.common import cps
 
 
+class Hang(Exception):
+    pass
+
+
+class time_limit:
+    """turn a hanging call of the real code (e.g. a blocking open of a FIFO) into an outcome"""
+    def __init__(self, seconds=20):
+        self.seconds = seconds
+
+    def __enter__(self):
+        import signal
+
+        def on_alarm(signum, frame):
+            raise Hang()
+        self.old = signal.signal(signal.SIGALRM, on_alarm)
+        signal.alarm(self.seconds)
+
+    def __exit__(self, *a):
+        import signal
+        signal.alarm(0)
+        signal.signal(signal.SIGALRM, self.old)
+        return False
+
+
 def classify(e):
     import gemato.exceptions as ge
+    if isinstance(e, Hang):
+        return {'err': 'internal:HANG'}
     if isinstance(e, ge.ManifestMismatch):
         return {'err': 'mismatch', 'path': cps(e.path)}
     table = [(ge.ManifestIncompatibleEntry, 'incompatible'), (ge.ManifestCrossDevice, 'crossdev'),
@@ -56,13 +82,14 @@ class Recorder:
 def verify_dir(root, top, path='', handler=None, last_mtime=None, xdev=True):
     from gemato.recursiveloader import ManifestRecursiveLoader
     try:
-        l = ManifestRecursiveLoader(os.path.join(root, top), allow_xdev=xdev)
-        kw = {}
-        if handler is not None:
-            kw['fail_handler'] = handler
-        if last_mtime is not None:
-            kw['last_mtime'] = last_mtime
-        ret = l.assert_directory_verifies(path, **kw)
+        with time_limit():
+            l = ManifestRecursiveLoader(os.path.join(root, top), allow_xdev=xdev)
+            kw = {}
+            if handler is not None:
+                kw['fail_handler'] = handler
+            if last_mtime is not None:
+                kw['last_mtime'] = last_mtime
+            ret = l.assert_directory_verifies(path, **kw)
     except Exception as e:
         return classify(e)
     return {'ret': bool(ret), 'calls': [cps(p) for p in (handler.calls if handler is not None else [])]}
@@ -72,6 +99,7 @@ def lookup(root, top, api, path, filename=None):
     from gemato.recursiveloader import ManifestRecursiveLoader
     from harness.textimpl import canon_entry
     try:
+      with time_limit():
         l = ManifestRecursiveLoader(os.path.join(root, top))
         if api == 'find_path_entry':
             e = l.find_path_entry(path)
@@ -94,7 +122,8 @@ def cli_verify(root, paths, extra=()):
     import gemato.cli
     logging.disable(logging.CRITICAL)
     try:
-        return gemato.cli.main(['gemato', 'verify'] + list(extra) + [os.path.join(root, p) if p else root for p in paths])
+        with time_limit(40):
+            return gemato.cli.main(['gemato', 'verify'] + list(extra) + [os.path.join(root, p) if p else root for p in paths])
     except SystemExit as e:
         return e.code
     except Exception as e:
